@@ -55,6 +55,12 @@ pub uninterp spec fn cpu_has_neon() -> bool;
 #[verifier::external_body] pub fn detect_avx2() -> (r: bool) ensures r == cpu_has_avx2() { unimplemented!() }
 #[verifier::external_body] pub fn detect_ssse3() -> (r: bool) ensures r == cpu_has_ssse3() { unimplemented!() }
 #[verifier::external_body] pub fn detect_neon() -> (r: bool) ensures r == cpu_has_neon() { unimplemented!() }
+// a detection macro for any other feature name: the result says nothing about avx2 / ssse3 / neon
+#[verifier::external_body] pub fn detect_other_feature() -> (r: bool) { unimplemented!() }
+pub assume_specification [usize::checked_next_power_of_two] (x: usize) -> (r: Option<usize>)
+    ensures x <= 65536 ==> r == Some(crate::vspec::envelope::np2(x as int) as usize),
+        r is Some ==> r->0 >= x && x <= 0x8000_0000_0000_0000usize,
+        x <= 0x8000_0000_0000_0000usize ==> r is Some;
 
 pub mod fixedbitset {
     use vstd::prelude::*;
@@ -102,11 +108,50 @@ pub mod fixedbitset {
                 final(self).bits() == if old(self).bits().contains(bit as nat) { old(self).bits().remove(bit as nat) } else { old(self).bits().insert(bit as nat) }
         { unimplemented!() }
         #[verifier::external_body]
+        pub fn count_ones<T: IndexRange>(&self, range: T) -> (r: usize)
+            ensures r == self.bits().filter(|b: nat| range.lo() <= b < range.hi(self.len_spec())).len()
+        { unimplemented!() }
+        #[verifier::external_body]
+        pub fn set_range<T: IndexRange>(&mut self, range: T, enabled: bool)
+            requires range.lo() <= range.hi(old(self).len_spec()) <= old(self).len_spec()
+            ensures final(self).len_spec() == old(self).len_spec(),
+                forall|b: nat| #[trigger] final(self).bits().contains(b) <==>
+                    (if range.lo() <= b < range.hi(old(self).len_spec()) { enabled } else { old(self).bits().contains(b) })
+        { unimplemented!() }
+        #[verifier::external_body]
+        pub fn insert_range<T: IndexRange>(&mut self, range: T)
+            requires range.lo() <= range.hi(old(self).len_spec()) <= old(self).len_spec()
+            ensures final(self).len_spec() == old(self).len_spec(),
+                forall|b: nat| #[trigger] final(self).bits().contains(b) <==>
+                    (range.lo() <= b < range.hi(old(self).len_spec()) || old(self).bits().contains(b))
+        { unimplemented!() }
+        #[verifier::external_body]
         pub fn set(&mut self, bit: usize, enabled: bool)
             requires bit < old(self).len_spec()
             ensures final(self).len_spec() == old(self).len_spec(),
                 final(self).bits() == if enabled { old(self).bits().insert(bit as nat) } else { old(self).bits().remove(bit as nat) }
         { unimplemented!() }
+    }
+    // fixedbitset's IndexRange: the four range forms over usize (start defaults to 0, end to the set's length)
+    pub trait IndexRange {
+        spec fn lo(&self) -> nat;
+        spec fn hi(&self, len: nat) -> nat;
+    }
+    impl IndexRange for std::ops::Range<usize> {
+        open spec fn lo(&self) -> nat { self.start as nat }
+        open spec fn hi(&self, len: nat) -> nat { self.end as nat }
+    }
+    impl IndexRange for std::ops::RangeFrom<usize> {
+        open spec fn lo(&self) -> nat { self.start as nat }
+        open spec fn hi(&self, len: nat) -> nat { len }
+    }
+    impl IndexRange for std::ops::RangeTo<usize> {
+        open spec fn lo(&self) -> nat { 0 }
+        open spec fn hi(&self, len: nat) -> nat { self.end as nat }
+    }
+    impl IndexRange for std::ops::RangeFull {
+        open spec fn lo(&self) -> nat { 0 }
+        open spec fn hi(&self, len: nat) -> nat { len }
     }
     impl vstd::std_specs::core::IndexSpecImpl<usize> for FixedBitSet {
         open spec fn index_req(&self, index: &usize) -> bool { true }
